@@ -6,7 +6,7 @@ export GOFLAGS=-mod=mod GOPROXY=off GOSUMDB=off GOTOOLCHAIN=local
 unset GOWORK
 REL="$1"; MUT="$2"; ID="$3"
 V=/verif
-R=/tmp/msweep/results; mkdir -p $R
+R=${MSWEEP_RESULTS:-/tmp/msweep/results}; mkdir -p $R
 [ -f "$R/$ID" ] && exit 0
 S=$(mktemp -d /dev/shm/msw.XXXXXX)
 git -C /repo archive --format=tar HEAD | tar -x -C "$S"
